@@ -716,5 +716,6 @@ pub proof fn lemma_C11_chain_shape(v: ValidatorAttributes, a: u64, b: u64, msg: 
 {
 }
 
+//@ AUTO-FREE-FNS
 } // verus!
 fn main() {}
